@@ -205,19 +205,29 @@ def run(R):
             if is_call(c):
                 return (c[1].split('::')[-1], truth)
             return (show(tm)[:30], vals)
+        # the two outcomes may be spelled Some(())/None or as the variants of a private two-valued enum: call the one produced for a data
+        # frame CONTINUE; every other constant outcome is STOP
+        def token(v_):
+            v_ = strip_refs(v_)
+            if v_[0] == 'agg' and v_[1].get('variant'):
+                return v_[1]['variant']
+            return None
+        oks = [(bb_, i_, pfr.origin(ops_[0])) for bb_, i_, p_, a_, ops_ in mirlib.aggregates(pfr, 'result::Result', 'Ok')]
+        data_tokens = {token(v) for bb_, i_, v in oks if last_guard(bb_) in (('is_data', True), ('discr:into_data', [0]))}
+        CONT = list(data_tokens)[0] if len(data_tokens) == 1 and None not in data_tokens else None
         nsome = 0
-        for bb_, i_, p_, a_, ops_ in mirlib.aggregates(pfr, 'result::Result', 'Ok'):
-            v = pfr.origin(ops_[0])
+        for bb_, i_, v in oks:
             lg = last_guard(bb_)
-            if v[0] == 'agg' and v[1].get('variant') == 'Some':
+            tk_ = token(v)
+            if tk_ is None or CONT is None:
+                R.bad('C02.R4', 'poll_frame-outcome-unrecognised', site(pfr, bb_, i_), 'Ok(%s): not one of two constant outcomes — a data frame could be reported as the end of the body' % show(v)[:80], kind='UNRECOGNISED')
+            elif tk_ == CONT:
                 nsome += 1
-                R.check(lg in (('is_data', True), ('discr:into_data', [0])), 'C02.R4', 'data-frame->continue', site(pfr, bb_, i_), 'Ok(Some(())) is produced for every data frame (decided by %r alone)' % (lg,))
-            elif v[0] == 'agg' and v[1].get('variant') == 'None':
-                R.check(lg in (('is_trailers', True), ('has_remaining', False), ('is_empty', True), ('eq', True), ('discr:into_trailers', [0])), 'C02.R4', 'end-of-body-only-when:%s' % lg[0], site(pfr, bb_, i_),
-                        'Ok(None) (stop reading) only for a trailers frame, the end of the body with an empty buffer, or a cancelled request: decided by %r' % (lg,))
+                R.check(lg in (('is_data', True), ('discr:into_data', [0])), 'C02.R4', 'data-frame->continue', site(pfr, bb_, i_), 'the "more data buffered" outcome (%s) is produced for every data frame (decided by %r alone)' % (CONT, lg))
             else:
-                R.bad('C02.R4', 'poll_frame-outcome-unrecognised', site(pfr, bb_, i_), 'Ok(%s): neither Some(()) nor None as a constant — a data frame could be reported as the end of the body' % show(v)[:80], kind='UNRECOGNISED')
-        R.check(nsome >= 1, 'C02.R4', 'data-frame->continue:exists', site(pfr), 'Ok(Some(())) writes: %d' % nsome)
+                R.check(lg in (('is_trailers', True), ('has_remaining', False), ('is_empty', True), ('eq', True), ('discr:into_trailers', [0])), 'C02.R4', 'end-of-body-only-when:%s' % lg[0], site(pfr, bb_, i_),
+                        'the "stop reading" outcome (%s) only for a trailers frame, the end of the body with an empty buffer, or a cancelled request: decided by %r' % (tk_, lg))
+        R.check(nsome >= 1, 'C02.R4', 'data-frame->continue:exists', site(pfr), '"more data buffered" outcomes: %d' % nsome)
 
     with R.guard('C02.R4', 'status-writer'):
         import C04
